@@ -190,7 +190,8 @@ fn run_history(p: &Params, ops: &[Op], peers: &[PeerId; 3]) -> (Vec<(String, Str
                                 format!("(t{t},p{pi}) still backed off (is={is}, time={time:?}) at {now:?}: expiry {:?} + slack {:?} passed and {} heartbeats since (wheel {wheel})", e.expiry, slack_d, e.hb_after),
                                 step,
                             ));
-                            ledger[t][pi] = None;
+                            // reported once; start counting again instead of cascading
+                            ledger[t][pi] = Some(Entry { expiry: e.expiry, hb_after: 0 });
                         }
                     }
                 }
